@@ -12,6 +12,10 @@ TIMER = {'test': 'TestVerifTimer', 'comp': 'timer', 'quick': {'VERIF_N': 200, 'V
          'thorough': {'VERIF_N': 4000, 'VERIF_OPS': 40}, 'seeds': {'quick': 1, 'thorough': 4}, 'corpus_glob': 'timer_*.ops'}
 
 
+ASND = {'test': 'TestVerifAssocSender', 'comp': 'as', 'quick': {'VERIF_N': 60, 'VERIF_OPS': 150},
+        'thorough': {'VERIF_N': 600, 'VERIF_OPS': 300}, 'seeds': {'quick': 1, 'thorough': 8}}
+
+
 def e2e(mode, test, nq=60, nt=1500):
     return {'test': test, 'comp': 'e2e', 'mode': mode, 'scenario': True, 'quick': {'VERIF_N': nq},
             'thorough': {'VERIF_N': nt}, 'seeds': {'quick': 1, 'thorough': 8}}
@@ -38,6 +42,8 @@ PROPS = {
     'C08': {'jobs': [E2E_SD], 'rule': E2E_RULE},
     'C04': {'jobs': [E2E_HS, E2E_T], 'rule': E2E_RULE},
     'C14': {'jobs': [E2E_RS], 'rule': E2E_RULE},
+    'C10': {'jobs': [ASND, E2E_T]},
+    'C15': {'jobs': [ASND, E2E_T, E2E_PR]},
     'C18': {'jobs': [E2E_API, E2E_SD], 'rule': E2E_RULE},
     'C09': {'jobs': [E2E_TD, E2E_SD, E2E_HS], 'rule': E2E_RULE},
     'C19': {'jobs': [RTO, TIMER], 'assumptions': [
